@@ -364,6 +364,12 @@ static Result judge_C10(int e, uint64_t v) {
   bool tail_ok = true; for (size_t i = (w <= N ? w : N); i < N; i++) if (buf[i] != 0xC5) tail_ok = false;
   ref::Bytes out(buf, buf + (w <= N ? w : 0));
   free(buf);
+  if (uint8_t* hb = vh::huge_buffer()) {   // the same call with a buffer size that does not fit an int / a uint32_t
+    size_t claim = vh::kHugeClaims[(v ^ (uint64_t)e) % 7];
+    memset(hb, 0xC5, N); size_t wh = call_encoder(e, v, hb, claim);
+    vh::counters["huge_buffer_calls"]++;
+    if (wh != w || (out.size() && memcmp(hb, out.data(), out.size()) != 0) || hb[out.size()] != 0xC5) return fail("with a buffer of " + std::to_string(claim) + " bytes it returned " + std::to_string(wh) + " / wrote " + vh::hex(hb, 10) + "; with 16 bytes " + std::to_string(w) + " / " + got);
+  }
   if (w != want.size()) return fail("returned " + std::to_string(w) + ", RFC head is " + vh::hex(want) + " (" + std::to_string(want.size()) + " bytes); wrote " + got);
   if (out != want) return fail("wrote " + got + ", RFC 8949 head is " + vh::hex(want));
   if (!tail_ok) return fail("bytes beyond the returned length were modified");
